@@ -6,6 +6,18 @@ directly on the implementation's log."""
 import itertools
 from vlib import *
 
+MANIFEST = {
+ "text": "Lean 4 theorems over the model of heap-inl.h (BFS-array heap: insert/remove keep heap order and the multiset, "
+         "root is minimal, for every shape/index) and of timer.c (saturating clamp, due_in, pass semantics); the model is tied "
+         "to the working tree by running model and implementation on the same op sequences (heap unit harness with BFS dump "
+         "after every op; real library on a virtual clock) and diffing every line, plus monitors that evaluate the property "
+         "text directly on the implementation.",
+ "note": "Trusted: Lean kernel (axioms propext, Classical.choice, Quot.sound), pointer-tree = BFS-array abstraction "
+         "(validated by dump equality), virtual clock interposition, clang/ASan. CLOCK_MONOTONIC monotonicity is assumed. "
+         "timer_counter wrap after 2^64 starts not modelled.",
+ "design": "DESIGN.md §3 C04",
+}
+
 U64 = 2 ** 64
 CORNERS = [0, 1, 2, 3, 5, 10, 100, 2 ** 31 - 1, 2 ** 31, 2 ** 32, 2 ** 63, U64 - 2, U64 - 1]
 
